@@ -521,6 +521,10 @@ class Effects:
                     if isinstance(recv, ast.Name) and self._is_pmap_local(func, recv.id) and f.attr in PMAP_PURE:
                         continue
                     out.append(Write(func, n, norm(n)[:90], loc_of(recv), "mutator:" + f.attr))
+                elif isinstance(f, ast.Attribute) and f.attr in ("set", "reset") and isinstance(f.value, ast.Name) and self._is_context_cell(func, f.value.id):
+                    # a module-level contextvars.ContextVar / threading.local: state shared by everything that runs in the same
+                    # thread or task -- two validators interleaved there see each other's value
+                    out.append(Write(func, n, norm(n)[:90], frozenset([("G", func.mod.name, f.value.id, "mutate")]), "context-cell:" + f.attr))
                 elif isinstance(f, ast.Name) and f.id in ("setattr", "delattr") and n.args:
                     a0 = n.args[0]
                     bt = calls.type_of(func, a0)
@@ -532,6 +536,14 @@ class Effects:
                     out.append(Write(func, n, norm(n)[:90], loc, f.id))
         self._direct[func] = out
         return out
+
+    def _is_context_cell(self, func, name):
+        if name in func.all_params:
+            return False
+        r = self.prog.resolve_name(func.mod, name, func)
+        if isinstance(r, tuple) and r[0] == "expr" and isinstance(r[2], ast.Call):
+            return norm(r[2].func).split(".")[-1] in ("ContextVar", "local")
+        return False
 
     def _is_pmap_local(self, func, name, _busy=()):
         """A local that only ever holds persistent maps: every binding is a pmap field, the result of a pure pmap method, or
